@@ -324,7 +324,12 @@ pub fn run_case(line: &str) -> String {
 
 /// state,prefixes,unknown_peer,unprocessable,announcements,withdrawals,up,eor_capable,dumping
 pub fn metrics_vec(text: &str, rid: u32) -> String {
-    let label = format!("router=\"{rid}\"");
+    metrics_vec_label(text, &rid.to_string())
+}
+
+/// the same for a router whose series carry the label value `router` (router_id_template other than the default)
+pub fn metrics_vec_label(text: &str, router: &str) -> String {
+    let label = format!("router=\"{router}\"");
     let get = |name: &str| -> String {
         let full = format!("rotonda_{name}_total{{");
         for l in text.lines() {
